@@ -85,7 +85,28 @@ fn run(args: Vec<String>) -> i32 {
             writeln!(log, "{}", json::obj(&[("t", json::esc("begin")), ("idx", idx.to_string()), ("case", if d.is_empty() { "null".into() } else { d })])).ok();
             log.flush().ok();
         }
-        let o = w.run(idx);
+        // Safety net: the workloads wrap engine calls in `guarded`, but a panic raised inside the
+        // repository's code at a call site that is not wrapped must still become an observation
+        // about the engine (a violation of "no panic"), not a harness error. A panic raised
+        // in the monitor's own code is a harness error and is propagated.
+        let _ = take_resource_panic();
+        let o = match guarded(|| w.run(idx)) {
+            Ok(o) => o,
+            Err(p) => {
+                if !p.in_engine() || p.loc.is_empty() { eprintln!("harness panic at case {}: {} at {}", idx, p.msg, p.loc); return 3; }
+                let d = w.describe(idx);
+                let mut o = Outcome::new(idx);
+                o.sample = d.clone();
+                o.violate(format!("panic|{}|{}", p.file(), p.kind()),
+                          json::obj(&[("kind", json::esc("the engine panicked")), ("panic", json::esc(&p.msg)), ("at", json::esc(&p.loc)), ("case", if d.is_empty() { "null".into() } else { d })]));
+                o
+            }
+        };
+        let mut o = o;
+        if let Some(m) = take_resource_panic() {
+            // the operating system refused a thread or memory during this case: whatever was observed is void
+            o.verdict = Verdict::Inconclusive(format!("resource exhaustion during the case: {}", m));
+        }
         last_idx = idx;
         cases += 1; evals += o.evals;
         for (k, n) in &o.counters {
